@@ -103,6 +103,20 @@ def build(kind, br):
         return LO.MulLinearOperator(LO.DenseLinearOperator(ten("S1", m, n)), LO.DenseLinearOperator(ten("S2", m, n)))
     if kind == "ConstantMul":
         return LO.ConstantMulLinearOperator(LO.DenseLinearOperator(ten("S1", dim("m"), dim("n"))), SymTensor.fresh("cst", bs, F))
+    # broadcast variants (parameters whose batch shape is smaller than the operator's): exercise the sum-to-size logic of derivatives
+    if kind == "ConstantMul_bc":  # constant with a trailing singleton batch dimension
+        return LO.ConstantMulLinearOperator(LO.DenseLinearOperator(ten("S1", dim("m"), dim("n"))), SymTensor.fresh("cst", bs[:-1] + ((1,) if br else ()), F))
+    if kind == "ConstantMul_lead":  # constant missing the leading batch dimension
+        return LO.ConstantMulLinearOperator(LO.DenseLinearOperator(ten("S1", dim("m"), dim("n"))), SymTensor.fresh("cst", bs[1:], F))
+    if kind == "Sum_bc":
+        m, n = dim("m"), dim("n")
+        return LO.SumLinearOperator(LO.DenseLinearOperator(ten("S1", m, n)), LO.DenseLinearOperator(SymTensor.fresh("S2", (m, n), F)))
+    if kind == "AddedDiag_bc":
+        n = dim("n")
+        return LO.AddedDiagLinearOperator(LO.DenseLinearOperator(ten("S1", n, n)), LO.DiagLinearOperator(SymTensor.fresh("d", (n,), F)))
+    if kind == "Matmul_bc":
+        m, k, n = dim("m"), dim("k"), dim("n")
+        return LO.MatmulLinearOperator(LO.DenseLinearOperator(SymTensor.fresh("S1", (m, k), F)), LO.DenseLinearOperator(ten("S2", k, n)))
     if kind == "Matmul":
         m, k, n = dim("m"), dim("k"), dim("n")
         return LO.MatmulLinearOperator(LO.DenseLinearOperator(ten("S1", m, k)), LO.DenseLinearOperator(ten("S2", k, n)))
@@ -118,6 +132,10 @@ def build(kind, br):
     if kind == "TriangularUpper":
         n = dim("n")
         return LO.TriangularLinearOperator(ten("T", n, n), upper=True)
+    if kind in ("TriangularExpanded", "TriangularUpperExpanded"):  # a triangular operator really broadcast to a larger batch by the library's own expand
+        n = dim("n")
+        base = LO.TriangularLinearOperator(ten("T", n, n), upper=kind == "TriangularUpperExpanded")
+        return base.expand(sym.sym_int("Bnew", 1), *bs, n, n)
     if kind in ("CholLower", "CholUpper"):
         n = dim("n")
         up = kind == "CholUpper"
@@ -340,6 +358,7 @@ def check_getitem(sig, debug):
     _env()
     from contracts import spec
     from engine import symops as SO
+    from engine.shadow import SymSlice
     from engine.symtensor import SymTensor
     from linear_operator import settings
     from linear_operator.operators import LinearOperator
@@ -359,6 +378,44 @@ def check_getitem(sig, debug):
             dims = list(range(len(sig)))
         index = tuple(_mk_index(k, p, sizes[d] if d is not None else None) for p, (k, d) in enumerate(zip(sig, dims)))
         settings.debug._state = debug
+        # caller-side obligation: what __getitem__ hands to _get_indices / _getitem satisfies THEIR precondition
+        # (ints and every entry of every index tensor in [0, size) - the contract the per-class proofs of Part A assume)
+        cls = type(op)
+        real_gi, real_g = cls._get_indices, cls._getitem
+        ncall = [0]
+
+        def _pre(which, row_index, col_index, batch_indices):
+            ncall[0] += 1
+            allidx = list(batch_indices) + [row_index, col_index]
+            for d, ix_ in enumerate(allidx):
+                if d >= len(sizes):
+                    c.prove(f"{base}/callee-precondition/{which}#{ncall[0]}/arity", z3.BoolVal(False), info=f"{len(allidx)} indices for {len(sizes)} dimensions")
+                    break
+                sz = sym.as_z3_int(sizes[d])
+                if isinstance(ix_, (slice, SymSlice)):
+                    continue
+                if isinstance(ix_, SymTensor):
+                    if ix_.dtype.kind != "i":
+                        c.prove(f"{base}/callee-precondition/{which}#{ncall[0]}/dim{d}/integer-index", z3.BoolVal(False), info=str(ix_.dtype))
+                        continue
+                    pos = tuple(z3.Int(c.fresh_name(f"p{t}!pre")) for t in range(ix_.dim()))
+                    for rk in range(1, 3):
+                        sym.instantiate_universals(pos[-rk:] if rk <= len(pos) else pos, key=rk) if pos else None
+                    c.prove(f"{base}/callee-precondition/{which}#{ncall[0]}/dim{d}/entries-in-[0,size)", z3.Implies(ix_.in_bounds(pos), z3.And(ix_.at(*pos) >= 0, ix_.at(*pos) < sz)))
+                else:
+                    v = sym.as_z3_int(ix_)
+                    c.prove(f"{base}/callee-precondition/{which}#{ncall[0]}/dim{d}/int-in-[0,size)", z3.And(v >= 0, v < sz))
+
+        def gi(self_, row_index, col_index, *batch_indices):
+            if self_ is op:
+                _pre("_get_indices", row_index, col_index, batch_indices)
+            return real_gi(self_, row_index, col_index, *batch_indices)
+
+        def g(self_, row_index, col_index, *batch_indices):
+            if self_ is op:
+                _pre("_getitem", row_index, col_index, batch_indices)
+            return real_g(self_, row_index, col_index, *batch_indices)
+        cls._get_indices, cls._getitem = gi, g
         try:
             try:
                 exp = SO.getitem(Dm, index)
@@ -381,6 +438,7 @@ def check_getitem(sig, debug):
                 got, got_exc = None, e
         finally:
             settings.debug._state = None
+            cls._get_indices, cls._getitem = real_gi, real_g
         if exp_exc is not None:
             c.prove(f"{base}/raises-when-torch-raises", z3.BoolVal(got_exc is not None), info=f"torch: {exp_exc!r}; operator returned {getattr(got, 'shape', got)}")
             return "raise"
